@@ -39,6 +39,8 @@ THEOREMS = [
     "select_abs", "select_abs_bool", "select_abs_str", "cast_pointwise", "isnull_pointwise",
     # whole expression trees
     "evalK_len", "eval_tree_pointwise", "evalK_no_tags", "eval_tree_pointwise_total",
+    # CASE with several WHEN branches (desugaring caseOf)
+    "case_first_true_wins", "specEval_caseOf_cons",
     # operands of type NULL (since /repo 26c93c7)
     "arith_col_abs", "cmp_col_abs", "and_col_abs", "or_col_abs", "ite_col_abs",
     "like_abs", "substring_abs", "replace_abs", "repeat_abs",
@@ -73,6 +75,8 @@ WITNESSES = [
 
 
 def top_op(req):
+    if req.startswith("(fc "):
+        return "case"
     if req.startswith("(f "):
         return "fold"
     m = re.match(r"\((?:k|e|ks \d+|el \d+) \d+ \(?([^ )]+)", req)
@@ -123,6 +127,21 @@ def classify_fold(req, impl_line, model_line):
     # `illtyped`: analyze_type (model: `typeOf`) rejects the expression, so the binder never hands
     # it to eval_constant or to the evaluator (`'a' || NULL`: folding says NULL, the kernel has no
     # arm); model == implementation is still required on it, fold == eval is not a claim
+    # `(fc …)`: `first:<v>` = the scalar SQL value of the CASE read off the SQL text (result of the FIRST
+    # WHEN whose condition is TRUE, computed branch by branch by the driver); the statement built from
+    # that text by the binder must return it, optimizer on or off, and so must the desugaring
+    first = [t[6:] for t in tags if t.startswith("first:")]
+    tags = [t for t in tags if not t.startswith("first:")]
+    case_problems = []
+    if first:
+        want = "ok " + re.sub(r"^i(16|32|64):", "int:", first[0])
+        got_rt = re.sub(r"^ok i(16|32|64):", "ok int:", rt)
+        if sn.startswith("ok") and sn != want:
+            case_problems.append("case-first-true:sql-noopt")
+        if so.startswith("ok") and so != want:
+            case_problems.append("case-first-true:sql-opt")
+        if got_rt.startswith("ok") and got_rt != want:
+            case_problems.append("case-first-true:desugaring")
     # `lazy:<v>`: eager evaluation fails, evaluation with SQL's lazy CASE gives v (driver: pruneCase)
     lazy = [t[5:] for t in tags if t.startswith("lazy:")]
     tags = [t for t in tags if not t.startswith("lazy:")]
@@ -131,6 +150,7 @@ def classify_fold(req, impl_line, model_line):
         tags = [t for t in tags if t != "illtyped"]
         problems = []
         differs = False
+    problems = problems + case_problems
     if differs and fold == "none" and not tags:
         if so.startswith("ok") and not sn.startswith("ok") and not rt.startswith("ok"):
             # direct evaluation fails (overflow / failed cast in some subexpression), the optimised
@@ -154,7 +174,7 @@ def classify_fold(req, impl_line, model_line):
 
 def classify(req, impl_line, model_line):
     """Returns dict(kind=..., ...) for one request."""
-    if req.startswith("(f "):
+    if req.startswith("(f ") or req.startswith("(fc "):
         return classify_fold(req, impl_line, model_line)
     ip = impl_line.split(" ;; ")
     mp = model_line.split(" ;; ")
@@ -223,7 +243,10 @@ def decide(ck, results, stats):
                 stats["fold"][pr] += 1
             if r["problems"]:
                 stats["impl_vs_oracle"]["disagree"] += 1
-                if not r["tags"]:
+                if any(pr.startswith("case-first-true") for pr in r["problems"]):
+                    ck.report("prop:case:first-true-wins", "CASE with several WHEN branches: the statement built from the SQL text does not return the result of the first branch (in source order) whose condition is TRUE (%s) on %s: %s model=%s" % (r["problems"], q[:240], r["impl"][:200], r["model"][:120]),
+                              replay={"request": q, **r}, found_input=True)
+                elif not r["tags"]:
                     ck.report("prop:fold:untagged", "folding and evaluation differ (%s) with no modelled reason on %s: %s" % (r["problems"], q[:200], r["impl"][:200]),
                               replay={"request": q, **r}, found_input=True)
                 for t in r["tags"]:
